@@ -107,6 +107,13 @@ class ReadOnly(object):
                                     ca[pn] = v.info
                                 elif isinstance(a, ast.Name) and a.id in class_args:
                                     ca[pn] = class_args[a.id]
+                                elif isinstance(a, ast.Name):
+                                    cur = fi
+                                    while cur is not None:
+                                        if a.id in cur.nested:
+                                            ca[pn] = cur.nested[a.id]
+                                            break
+                                        cur = cur.parent
                             step = path + ('%s -> %s' % (fi.qualname, t.fi.qualname),)
                             for pn, a in b.items():
                                 if is_chain(a) and root_name(a) in al:
